@@ -15,6 +15,10 @@
 //!                             blocks stay after their type and keep their relative order)
 //!   insert_type:<Name>:<opaque|struct|enum>:<k>   add an unreferenced type to the k-th bridge module
 //!   remove_type:<Name>
+//!   insert_shadow_module:<k>:<seed>   add a new bridge module holding an unreferenced type with the *same Rust
+//!                             name and kind* as an existing bridge type (renamed for the backends and with its
+//!                             own abi_rename, so outputs do not collide); module name sorts first or last
+//!   remove_shadow_module:<k>
 //!   insert_nonbridge:<seed>   add functions/consts/same-named types/cfg'd modules outside bridge modules
 //!   remove_nonbridge          remove everything insert_nonbridge added
 //!   noop
@@ -99,15 +103,25 @@ fn insert_type(items: &mut Vec<Item>, name: &str, kind: &str, k: usize) -> bool 
         "struct" => parse_quote! { pub struct #ident { pub verif_a: u8, pub verif_b: i32 } },
         _ => parse_quote! { pub enum #ident { VerifA, VerifB, VerifC } },
     };
+    // the target module is chosen among the bridge modules of the *original* source only, so that
+    // this edit commutes with insert/remove_shadow_module (histories are compared across such edits)
+    let is_orig = |m: &syn::ItemMod| !m.ident.to_string().contains("_verif_shadow_");
     let mut n = 0usize;
     let mut total = 0usize;
-    for_each_bridge(items, &mut |_| total += 1);
+    for_each_bridge(items, &mut |m| {
+        if is_orig(m) {
+            total += 1
+        }
+    });
     if total == 0 {
         return false;
     }
     let target = k % total;
     let mut done = false;
     for_each_bridge(items, &mut |m| {
+        if !is_orig(m) {
+            return;
+        }
         if n == target {
             if let Some((_, inner)) = &mut m.content {
                 // position inside the module is part of what must not matter
@@ -127,6 +141,61 @@ fn remove_type(items: &mut Vec<Item>, name: &str) {
             inner.retain(|i| type_name(i).as_deref() != Some(name));
         }
     });
+}
+
+/// (name, kind) of every type declared in a bridge module
+fn bridge_types(items: &mut Vec<Item>) -> Vec<(String, &'static str)> {
+    let mut v = vec![];
+    for_each_bridge(items, &mut |m| {
+        if let Some((_, inner)) = &m.content {
+            for i in inner {
+                match i {
+                    Item::Struct(s) => {
+                        let opaque = s.attrs.iter().any(|a| a.path().segments.iter().map(|x| x.ident.to_string()).collect::<Vec<_>>() == ["diplomat", "opaque"]);
+                        v.push((s.ident.to_string(), if opaque { "opaque" } else { "struct" }));
+                    }
+                    Item::Enum(e) => v.push((e.ident.to_string(), "enum")),
+                    _ => {}
+                }
+            }
+        }
+    });
+    v
+}
+
+fn shadow_mod_name(k: u32, last: bool) -> String {
+    format!("{}_verif_shadow_{}", if last { "zzz" } else { "aaa" }, k)
+}
+
+fn insert_shadow_module(items: &mut Vec<Item>, k: u32, rng: &mut Rng) -> bool {
+    let types = bridge_types(items);
+    if types.is_empty() {
+        return false;
+    }
+    let (name, kind) = types[rng.below(types.len() as u32) as usize].clone();
+    let ident = syn::Ident::new(&name, proc_macro2::Span::call_site());
+    let modname = syn::Ident::new(&shadow_mod_name(k, rng.chance(1, 2)), proc_macro2::Span::call_site());
+    let rename = format!("VerifShadow{}", k);
+    let abi = format!("verifshadow{}_{{0}}", k);
+    let ty: Item = match kind {
+        "opaque" => parse_quote! { #[diplomat::opaque] #[diplomat::attr(*, rename = #rename)] pub struct #ident(u8); },
+        "struct" => parse_quote! { #[diplomat::attr(*, rename = #rename)] pub struct #ident { pub verif_a: u8, pub verif_b: i32 } },
+        _ => parse_quote! { #[diplomat::attr(*, rename = #rename)] pub enum #ident { VerifA, VerifB } },
+    };
+    let m: Item = parse_quote! {
+        #[diplomat::bridge]
+        #[diplomat::abi_rename = #abi]
+        pub mod #modname { #ty }
+    };
+    let at = rng.below(items.len() as u32 + 1) as usize;
+    items.insert(at, m);
+    true
+}
+
+fn remove_shadow_module(items: &mut Vec<Item>, k: u32) {
+    let a = shadow_mod_name(k, false);
+    let z = shadow_mod_name(k, true);
+    items.retain(|i| !matches!(i, Item::Mod(m) if m.ident == a || m.ident == z));
 }
 
 const MARK: &str = "verif_nonbridge";
@@ -288,6 +357,13 @@ fn main() {
                 }
             }
             "remove_type" => remove_type(&mut file.items, parts[1]),
+            "insert_shadow_module" => {
+                if !insert_shadow_module(&mut file.items, parts[1].parse().expect("k"), &mut Rng::new(parts[2].parse().expect("seed"))) {
+                    eprintln!("no bridge type to shadow");
+                    std::process::exit(2);
+                }
+            }
+            "remove_shadow_module" => remove_shadow_module(&mut file.items, parts[1].parse().expect("k")),
             "insert_nonbridge" => {
                 let names = collect_bridge_type_names(&mut file.items);
                 insert_nonbridge(&mut file.items, &mut Rng::new(parts[1].parse().expect("seed")), &names, 0, &mut counter)
